@@ -53,7 +53,9 @@ def relay_lines(rid, nick, flags, n_a, has_w, bw, has_p, net=0):
         lines.append('a ' + a)
     lines.append('s ' + ' '.join(sorted(['Fast', 'Running', 'Valid'] + flags)))
     if has_w:
-        lines.append('w Bandwidth=%d' % bw)
+        # dir-spec allows further keywords after Bandwidth=
+        extra = {1: ' Unmeasured=1', 100: ' Measured=4890'}.get(bw, '')
+        lines.append('w Bandwidth=%d%s' % (bw, extra))
     if has_p:
         lines.append('p accept 80,443')
     return lines, {'nick': nick, 'id': hexid(ID[rid]), 'ip': ip, 'orport': orport, 'dirport': dirport, 'v6': v6, 'flags': [f.lower() for f in ['Fast', 'Running', 'Valid'] + flags],
